@@ -735,6 +735,12 @@ func envStr(name, def string) string {
 func runSysCrashCase(r *Run, rng *Rng, cycles int) {
 	f := newSysFixture(r, rng)
 	defer f.Close()
+	defer func() {
+		f.mu.Lock()
+		h, _ := f.info["history"].([]string)
+		f.mu.Unlock()
+		r.Sample(map[string]any{"workload": "syscrash", "history": h})
+	}()
 	f.startPolling()
 	var history []string
 	f.info["workload"] = "syscrash"
@@ -989,6 +995,7 @@ func runSysTwoCase(r *Run, rng *Rng) {
 		}
 	}
 	r.DistinctKey(fmt.Sprintf("offset<%d/survivor=%s/acksA=%v/acksB=%v", (offset/100+1)*100, surv, acksOf("A") > 0, acksOf("B") > 0))
+	r.Sample(map[string]any{"workload": "two-processes", "second_started_after_ms": offset, "survivor": surv, "acks_a": acksOf("A"), "acks_b": acksOf("B")})
 	for _, p := range []*sysProc{a, b} {
 		if p != nil {
 			p.interrupt(5 * time.Second)
